@@ -167,11 +167,64 @@ Definition ser_AnamHermite (o : anam_hermite) : list record :=
     r_dbl "Change of support coefficient" (ah_rcoef o);
     r_int "Number of Hermite Polynomials" (lenZ (ah_psi o));
     r_vdbl "Hermite Polynomial" (ah_psi o) ].
-Definition deser_AnamHermite : reader anam_hermite :=
+(* [keep]: the reader keeps the mean and the variance read from the file when they are defined (instead of the ones
+   that setPsiHns / setRCoef recompute from the 15-digit coefficients) *)
+Definition deser_AnamHermite (keep : bool) : reader anam_hermite :=
   azmin <- rd_dbl ;; azmax <- rd_dbl ;; aymin <- rd_dbl ;; aymax <- rd_dbl ;;
   pzmin <- rd_dbl ;; pzmax <- rd_dbl ;; pymin <- rd_dbl ;; pymax <- rd_dbl ;;
   mean <- rd_dbl ;; variance <- rd_dbl ;; r <- rd_dbl ;; nbpoly <- rd_int ;;
   psi <- rd_vdbl nbpoly ;;
   ret {| ah_azmin := azmin; ah_azmax := azmax; ah_aymin := aymin; ah_aymax := aymax;
          ah_pzmin := pzmin; ah_pzmax := pzmax; ah_pymin := pymin; ah_pymax := pymax;
-         ah_mean := hd d0 psi; ah_variance := hermite_variance r psi; ah_rcoef := r; ah_psi := psi |}.
+         ah_mean := if keep && negb (is_na mean) then mean else hd d0 psi;
+         ah_variance := if keep && negb (is_na variance) then variance else hermite_variance r psi;
+         ah_rcoef := r; ah_psi := psi |}.
+
+(* ====================================================================== format dialects *)
+(* Some records were appended to the files by later versions of the library ("options at the end of the file": a file
+   written by an older version stops before them and the reader, which probes the end of the data, keeps the defaults).
+   Each class takes the dialect as a boolean: false = the records are neither written nor read. *)
+
+(* ANeigh::_serializeOptions / _deserializeOptions *)
+Definition ser_ANeigh_options (tail : bool) (a : aneigh) : list record :=
+  if tail then
+    [ r_com ""; r_int "Cross-validation flag" (b2z (an_xvalid a)); r_int "K-Fold flag" (b2z (an_kfold a));
+      r_int "Ball Tree search flag" (b2z (an_ball a)); r_int "Ball Tree leaf size" (an_leaf a) ]
+  else [].
+Definition rd_options (a0 : aneigh) : reader aneigh :=
+  x <- rd_int ;; k <- rd_int ;; b <- rd_int ;; l <- rd_int ;;
+  ret {| an_ndim := an_ndim a0; an_xvalid := z2b x; an_kfold := z2b k; an_ball := z2b b; an_leaf := l |}.
+Definition deser_ANeigh_options (tail : bool) (a0 : aneigh) : reader aneigh :=
+  if tail then eod <- rd_eod ;; (if eod : bool then ret a0 else rd_options a0) else ret a0.
+
+Definition ser_NeighUniqueD (tail : bool) (a : aneigh) : list record := ser_NeighUnique a ++ ser_ANeigh_options tail a.
+Definition deser_NeighUniqueD (tail : bool) : reader aneigh := a <- deser_NeighUnique ;; deser_ANeigh_options tail a.
+
+Definition ser_NeighBenchD (tail : bool) (o : neigh_bench) : list record := ser_NeighBench o ++ ser_ANeigh_options tail (nb_base o).
+Definition deser_NeighBenchD (tail : bool) : reader neigh_bench :=
+  o <- deser_NeighBench ;; a <- deser_ANeigh_options tail (nb_base o) ;;
+  ret {| nb_base := a; nb_width := nb_width o; nb_bipt_width := nb_bipt_width o |}.
+
+Definition ser_NeighCellD (tail : bool) (o : neigh_cell) : list record := ser_NeighCell o ++ ser_ANeigh_options tail (nc_base o).
+Definition deser_NeighCellD (tail : bool) : reader neigh_cell :=
+  o <- deser_NeighCell ;; a <- deser_ANeigh_options tail (nc_base o) ;; ret {| nc_base := a; nc_nmini := nc_nmini o |}.
+
+(* NeighMoving: the options, then _distCont *)
+Definition ser_NeighMovingD (tail : bool) (o : neigh_moving) : list record :=
+  ser_NeighMoving o ++ ser_ANeigh_options tail (nm_base o)
+  ++ (if tail then [ r_dbl "Distance for continuous neighborhood" (nm_distcont o) ] else []).
+Definition deser_NeighMovingD (tail : bool) : reader neigh_moving :=
+  o <- deser_NeighMoving ;; a <- deser_ANeigh_options tail (nm_base o) ;;
+  dc <- (if tail then eod <- rd_eod ;; (if eod : bool then ret None else rd_dbl) else ret None) ;;
+  ret {| nm_base := a; nm_nmini := nm_nmini o; nm_nmaxi := nm_nmaxi o; nm_nsect := nm_nsect o; nm_nsmax := nm_nsmax o;
+         nm_distcont := dc; nm_radius := nm_radius o; nm_aniso := nm_aniso o; nm_rot := nm_rot o;
+         nm_coeffs := nm_coeffs o; nm_rotmat := nm_rotmat o |}.
+
+(* AnamHermite: _flagBound *)
+Record anam_hermiteD := { ahd_core : anam_hermite; ahd_bound : bool }.
+Definition ser_AnamHermiteD (btail : bool) (o : anam_hermiteD) : list record :=
+  ser_AnamHermite (ahd_core o) ++ (if btail then [ r_int "Bounds are taken into account" (b2z (ahd_bound o)) ] else []).
+Definition deser_AnamHermiteD (keep btail : bool) : reader anam_hermiteD :=
+  c <- deser_AnamHermite keep ;;
+  fb <- (if btail then eod <- rd_eod ;; (if eod : bool then ret true else f <- rd_int ;; ret (z2b f)) else ret true) ;;
+  ret {| ahd_core := c; ahd_bound := fb |}.
